@@ -629,6 +629,11 @@ class SymExec:
         while work:
             path, bname, visits = work.pop()
             visits = dict(visits)
+            if bname in getattr(self, "stop_at", ()) and visits.get(bname, 0) >= 1:
+                # a designated loop head is reached again: the iteration under study is over
+                path.trace.append(bname + " (back at the designated loop head)")
+                self.looped.append((path, bname))
+                continue
             visits[bname] = visits.get(bname, 0) + 1
             if visits[bname] > self.loop_bound + 1:
                 path.trace.append(bname + " (loop bound reached: path abandoned)")
